@@ -137,7 +137,9 @@ static int drv_call(htp_connp_t *c, int dir, const uint8_t *data, size_t len, in
         hx_verdict_add("C09", "byte_counter", "%s byte counter advanced by %lld for a call offering %zu (rc=%s)", dn, (long long) delta, len, ss_name(rc));
     if (delta != 0 && delta != (int64_t) len)
         hx_verdict_add("C09", "byte_counter", "%s byte counter advanced by %lld for a call offering %zu", dn, (long long) delta, len);
-    if (drv_sticky[dir] && !drv_closed[dir]) {
+    /* after the caller closed the stream only ERROR is still judged: htp_connp_close() keeps a failed direction failed (explicit guard),
+     * what it does to a STOPped one is outside the statement */
+    if (drv_sticky[dir] && (!drv_closed[dir] || drv_sticky[dir] == HTP_STREAM_ERROR)) {
         if (rc != drv_sticky[dir])
             hx_verdict_add("C09", "not_sticky", "%s direction reported %s earlier, later data call returned %s", dn, ss_name(drv_sticky[dir]), ss_name(rc));
         if (o->ncb != ncb0)
@@ -265,7 +267,11 @@ int hx_run(const hx_script *s, hx_obs *o) {
             case OP_SG: drv_feed(c, 1, NULL, op->n, 1, s->raw); break;
             case OP_CLOSE:
                 if (!s->raw) drv_drain(c);
-                hx_in_lib = 1; htp_connp_close(c, &drv_tv); hx_in_lib = 0;
+                { int side0[2] = { o->ncb_side[0], o->ncb_side[1] };
+                  hx_in_lib = 1; htp_connp_close(c, &drv_tv); hx_in_lib = 0;
+                  /* htp_connp_close() makes one last zero-length data call per direction: a direction that reported ERROR stays failed */
+                  for (int d = 0; d < 2; d++) if (drv_sticky[d] == HTP_STREAM_ERROR && !drv_closed[d] && o->ncb_side[d] != side0[d])
+                      hx_verdict_add("C09", "cb_after_sticky", "%s direction is in ERROR but htp_connp_close() ran %d parsing callback(s) of that direction", d ? "res" : "req", o->ncb_side[d] - side0[d]); }
                 drv_closed[0] = drv_closed[1] = 1;
                 monitor_limits(c);
                 break;
